@@ -93,7 +93,7 @@ fn coq_byr(o: &Byr) -> String {
     match o {
         Out::Ok(a) => format!("(Ok ({},{}))", coq_bytes(a.payload.as_ref()), a.crc),
         Out::Err(c) => format!("(Err {})", coq_z(c)),
-        Out::Panic(_) => "(Panic 1)".into(),
+        Out::Panic(m) => if m.contains("subtract with overflow") { "(Panic 2)".into() } else { "(Panic 1)".into() },
     }
 }
 fn show(o: &Byr) -> String {
@@ -205,6 +205,7 @@ fn oracle_roundtrip(cx: &Ctx, p: Option<&AddressPayload>, a: &ByronAddress) {
     if !cx.oo {
         emit_case("from_decoded", &format!("(CFromDecoded {} {})", coq_bytes(a.payload.as_ref()), a.crc));
         emit_case("to_vec", &format!("(CEnc {} {} {})", coq_bytes(a.payload.as_ref()), a.crc, coq_bytes(&vec)));
+        emit_case("to_base58", &format!("(CB58Enc {} {} {})", coq_bytes(a.payload.as_ref()), a.crc, coq_bytes(s.as_bytes())));
     }
 }
 
@@ -344,6 +345,34 @@ fn run(args: Args) {
         // non-canonical but well-formed encodings of the same pair
         let cc = if rng.chance(3, 4) { good } else { bad }; let (v, tag) = encode_shaped(&mut rng, &pl, cc);
         parse_all(&cx, &v, tag, false, false);
+    }
+
+    // ---- base58 text through ByronAddress::from_base58: valid, mutated, bad characters, leading '1', too long
+    let b58dec = |cx: &Ctx, s: &str, tag: &str| {
+        let r = by_from_b58(s);
+        oracle_no_bad_crc("ByronAddress::from_base58", &r, &format!("base58={}", s));
+        if !cx.oo { emit_case(tag, &format!("(CB58Dec {} {})", coq_bytes(s.as_bytes()), coq_byr(&r))); }
+    };
+    for v in VECTORS { b58dec(&cx, v, "base58-vector"); }
+    for s in ["", "1", "11", "Z", "4k8", "0", "O", "I", "l", "4k 8", "4k8\u{e9}", "3mJr7AoUXx2Wqd"] { b58dec(&cx, s, "base58-fixed"); }
+    // more leading '1' than the 132-byte buffer has leading zeros: the crate subtracts with overflow
+    for k in [131usize, 132, 133, 140] { b58dec(&cx, &"1".repeat(k), "base58-many-leading-ones"); }
+    for k in [1usize, 50, 60] { let s = format!("{}{}", "1".repeat(k), VECTORS[0]); b58dec(&cx, &s, "base58-leading-ones-then-address"); }
+    for _ in 0..(args.n / 2).max(50) {
+        let p = payload(&mut rng);
+        let a = ByronAddress::from_decoded(p);
+        let good = a.to_base58();
+        let mut m = good.clone().into_bytes();
+        let k = rng.below(m.len() as u64) as usize;
+        let tag = match rng.below(6) {
+            0 => "base58-valid",
+            1 => { m[k] = *rng.pick(b"123456789ABCDEFGHJKLMNPQRSTUVWXYZabcdefghijkmnopqrstuvwxyz"); "base58-char-substituted" }
+            2 => { m[k] = *rng.pick(&[b'0', b'O', b'I', b'l', b' ', b'+', b'/', 0x7f]); "base58-bad-character" }
+            3 => { m.remove(k); "base58-char-removed" }
+            4 => { let c = *rng.pick(b"123456789ABCDEFGHJKLMNPQRSTUVWXYZabcdefghijkmnopqrstuvwxyz"); m.insert(k, c); "base58-char-inserted" }
+            _ => { let l = rng.range(0, 200) as usize; m = (0..l).map(|_| *rng.pick(b"123456789ABCDEFGHJKLMNPQRSTUVWXYZabcdefghijkmnopqrstuvwxyz")).collect(); "base58-random-text" }
+        };
+        if let Ok(s) = String::from_utf8(m) { b58dec(&cx, &s, tag); }
     }
 
     // ---- malformed: truncations, random bytes behind a Byron header, mutated heads
